@@ -23,7 +23,10 @@ func verifFoldReadFile(name string) ([]byte, error) {
 	return nil, os.ErrNotExist
 }
 func verifFoldUnmarshal(in []byte, out interface{}) error {
-	p := out.(*types.Project)
+	p, ok := out.(*types.Project)
+	if !ok {
+		return nil // some other decoding target: nothing of what the harness writes concerns it
+	}
 	for _, l := range strings.Split(string(in), "\n") {
 		switch {
 		case strings.HasPrefix(l, "log_level: "):
